@@ -18,20 +18,20 @@ V = os.path.dirname(os.path.dirname(os.path.abspath(__file__)))
 # id, property, file, old, new, description
 M = [
  ("M01", "C01", "microscpi/src/tree.rs", "child.0.eq_ignore_ascii_case(name)", "child.0.len() >= name.len() && child.0[..name.len()].eq_ignore_ascii_case(name)", "Node::child accepts any prefix of a child name (SYSTE)"),
- ("M02", "C01", "microscpi-macros/src/command.rs", "if part.short != part.long {", "if part.short != part.long && !part.optional {", "short form not registered for optional nodes"),
+ ("M02", "C01", "microscpi-macros/src/command.rs", "if part.short != part.long && is_mnemonic(&part.short) {", "if part.short != part.long && is_mnemonic(&part.short) && !part.optional {", "short form not registered for optional nodes"),
  ("M03", "C01", "microscpi/src/interface.rs", "let command = if call.query {\n            call.node.query\n        }\n        else {\n            call.node.command\n        };", "let command = if call.query {\n            call.node.query.or(call.node.command)\n        }\n        else {\n            call.node.command\n        };", "a query on a command-only node falls back to the command"),
  ("M04", "C02", "microscpi/src/interface.rs", "                    header = call_header;\n                }\n            }\n            else {", "                    header = call.node;\n                }\n            }\n            else {", "path after a unit is the addressed node instead of its parent"),
  ("M05", "C02", "microscpi/src/parser.rs", "        Ok((i2, (node, None)))", "        Ok((i2, (node, Some(root))))", "common commands reset the path to the root"),
  ("M06", "C03", "microscpi/src/value.rs", "<$type>::from_str_radix(data, 8).or(Err(Error::NumericDataError))", "<$type>::from_str_radix(data, 16).or(Err(Error::NumericDataError))", "octal literals read with radix 16"),
  ("M07", "C03", "microscpi-macros/src/lib.rs", "if args.len() != #arg_count {", "if args.len() < #arg_count {", "surplus parameters are ignored"),
- ("M08", "C03", "microscpi/src/value.rs", "Value::Characters(\"OFF\" | \"off\")", "Value::Characters(\"OFF\" | \"off\" | \"O\")", "character data O accepted as false"),
+ ("M08", "C03", "microscpi/src/value.rs", "if is(data, \"OFF\") || is(data, \"FALSE\")", "if is(data, \"OFF\") || is(data, \"FALSE\") || is(data, \"O\")", "character data O accepted as false"),
  ("M09", "C04", "microscpi/src/response.rs", "        f.write_char(',').await?;\n        self.3.write_response(f).await", "        self.3.write_response(f).await", "4-tuples lose the comma before the last element"),
  ("M10", "C04", "microscpi/src/response.rs", "f.write_str(\"9.91E+37\").await\n        }\n        else if self.is_infinite() {\n            if self.is_sign_negative() {\n                f.write_str(\"-9.9E+37\").await", "f.write_str(\"9.91E+37\").await\n        }\n        else if self.is_infinite() {\n            if self.is_sign_negative() {\n                f.write_str(\"-9.91E+37\").await", "first -infinity sentinel (f32) spelled -9.91E+37"),
- ("M11", "C04", "microscpi/src/interface.rs", "                response.write_char('\\n').await?;\n                response.flush().await?;", "                response.flush().await?;\n                response.write_char('\\n').await?;", "flush before the newline"),
+ ("M11", "C04", "microscpi/src/interface.rs", "                result = match response.write_char('\\n').await {\n                    Ok(()) => response.flush().await,", "                result = match response.flush().await {\n                    Ok(()) => response.write_char('\\n').await,", "flush before the newline"),
  ("M12", "C05", "microscpi/src/parser.rs", "    // Skip optional whitespace\n    let (input, _) = optional(whitespace)(input)?;\n    let (input, _terminator) = optional(tag(b'\\n'))(input)?;\n\n    if _terminator.is_some() {\n        return Ok((input, None));\n    }", "    let original = input;\n    let (input, _) = optional(whitespace)(input)?;\n    let (input, _terminator) = optional(tag(b'\\n'))(input)?;\n\n    if _terminator.is_some() {\n        return Ok((if original.starts_with(b\"\\r\\n\") { original } else { input }, None));\n    }", "an empty message written as CR LF is accepted without being consumed (run loops forever)"),
  ("M13", "C05", "microscpi/src/interface.rs", "if read_offset >= cmd_buf.len() {", "if read_offset > cmd_buf.len() {", "overflow test off by one: read into an empty buffer forever"),
  ("M14", "C06", "microscpi/src/interface.rs", "                    self.handle_error(error);\n                }", "                    self.handle_error(error);\n                    if call.query {\n                        self.handle_error(error);\n                    }\n                }", "execution errors of queries are reported twice"),
- ("M15", "C06", "microscpi/src/interface.rs", "                        input = &input[position + 1..];\n                        header = self.root_node();\n                        continue;", "                        input = &input[(position + 2).min(input.len())..];\n                        header = self.root_node();\n                        continue;", "resync after a parse error also swallows the first byte of the next message"),
+ ("M15", "C06", "microscpi/src/interface.rs", "                    Some(remaining) => {\n                        input = remaining;", "                    Some(remaining) => {\n                        input = remaining.get(1..).unwrap_or(remaining);", "resync after a parse error also swallows the first byte of the next message"),
  ("M16", "C07", "microscpi/src/interface.rs", "                read_offset -= proc_offset;\n                proc_offset = 0;", "                read_offset -= proc_offset;", "proc_offset is not reset after compaction"),
  ("M17", "C07", "microscpi/src/interface.rs", "            while let Some(position) = cmd_buf[read_offset..read_end]", "            while let Some(position) = cmd_buf[proc_offset.min(read_offset)..read_end]", "scan restarts at proc_offset (position then relative to the wrong base)"),
  ("M18", "C08", "microscpi/src/parser.rs", "let (i2, res) = take_while(|c| c != b'\\'')(i1)?;", "let (i2, res) = take_while(|c| c != b'\\'' && c != b'\\n')(i1)?;", "single-quoted strings end at a newline"),
@@ -49,6 +49,12 @@ M = [
  ("M30", "C13", "microscpi/src/error_queue.rs", "        if self.0.push_back(error).is_err() {", "        if self.0.is_full() { let _b = alloc::boxed::Box::new(error); }\n        if self.0.push_back(error).is_err() {", "queue overflow path allocates (needs M29's extern crate alloc)"),
  ("M31", "C14", "microscpi-macros/src/tree.rs", "                    if !Rc::ptr_eq(existing, &cmd) {\n                        return Err(Error::QueryExists);\n                    }", "                    if !Rc::ptr_eq(existing, &cmd) && path.is_empty() && false {\n                        return Err(Error::QueryExists);\n                    }", "query collisions are never reported (later declaration is shadowed)"),
  ("M32", "C14", "microscpi-macros/src/lib.rs", "        .try_for_each(|cmd| tree.insert(cmd.clone()))\n        .unwrap();", "        .try_for_each(|cmd| tree.insert(cmd.clone()))\n        .ok();", "insertion errors are ignored"),
+ ("M33", "C12", "microscpi/src/parser.rs", "    if !i2.iter().take(digits).all(u8::is_ascii_digit) {\n        return Err(Error::InvalidCharacterInNumber.into());\n    }\n", "", "D17 undone in the parser: '#<n>' + fewer than n bytes is incomplete whatever the bytes are"),
+ ("M34", "C10", "microscpi/src/parser.rs", "    if !i2.iter().take(digits).all(u8::is_ascii_digit) {\n        return Err(Error::InvalidCharacterInNumber.into());\n    }\n", "", "same change, seen by C10's lockstep oracle (a complete message is not executed before the next read)"),
+ ("M35", "C05", "microscpi/src/interface.rs", "                let mut scanner = Scanner::Plain;\n                for byte in &cmd_buf[..read_offset] {\n                    scanner.is_terminator(*byte);\n                }\n", "                let scanner = Scanner::Plain;\n", "D19 undone: the discard of an over-long message forgets that the discarded part ended inside a string / block"),
+ ("M36", "C08", "microscpi/src/interface.rs", "                    *self = if length > 1 { Scanner::Block(length - 1) } else { Scanner::Plain };", "                    *self = if length > 1 && byte != b'\\n' { Scanner::Block(length - 1) } else { Scanner::Plain };", "the scanner ends a block at a newline inside its payload (faulty message with such a block)"),
+ ("M37", "C11", "microscpi/src/value.rs", "let is = |data: &str, mnemonic: &str| data.eq_ignore_ascii_case(mnemonic);", "let is = |data: &str, mnemonic: &str| data == mnemonic || (data.bytes().all(|c| c.is_ascii_lowercase()) && data.eq_ignore_ascii_case(mnemonic));", "D20 undone: ON / OFF only in all-upper or all-lower case"),
+ ("M38", "C01", "microscpi-macros/src/lib.rs", "let Some(name) = path.segments.last().map(|segment| &segment.ident) else { continue };", "let Some(name) = path.get_ident() else { continue };", "D21 undone: groups named by a path are dropped"),
 ]
 
 
